@@ -82,6 +82,7 @@ func ruleForceDurationScan(p *Prog, l *Ledger, tier string) {
 	}
 	// the cut and the filler
 	var cut, filler *ssa.Store
+	cutIsFilter := false
 	for _, b := range p.helperBlocks(fn) {
 		for _, ins := range b.Instrs {
 			st, ok := ins.(*ssa.Store)
@@ -92,6 +93,11 @@ func ruleForceDurationScan(p *Prog, l *Ledger, tier string) {
 				continue
 			}
 			switch v := st.Val.(type) {
+			case *ssa.Phi:
+				// kept := s.Items[:0]; for … { kept = append(kept, cue) }; s.Items = kept
+				if isFilterAccumulation(v) {
+					cut, cutIsFilter = st, true
+				}
 			case *ssa.Slice:
 				if v.High != nil {
 					cut = st
@@ -114,17 +120,24 @@ func ruleForceDurationScan(p *Prog, l *Ledger, tier string) {
 		return
 	}
 	// (c)
-	k := cut.Val.(*ssa.Slice).High
 	keyC := rule + "|sentinel"
+	var k ssa.Value
+	if sl, ok := cut.Val.(*ssa.Slice); ok {
+		k = sl.High
+	}
 	guardOnK := false
 	for _, dc := range dominatingConds(cut.Block()) {
-		if mentionsValue(dc.cond, k, 0) {
+		if k != nil && mentionsValue(dc.cond, k, 0) {
 			guardOnK = true
 		}
 	}
 	var consts []int64
-	constEdges(k, map[ssa.Value]bool{}, &consts)
+	if k != nil {
+		constEdges(k, map[ssa.Value]bool{}, &consts)
+	}
 	switch {
+	case cutIsFilter:
+		l.Prove(rule, name, keyC, p.Pos(cut.Pos()), "the list is rebuilt by re-appending the cues that are kept (a filter in place): there is no cut index and no not-found value")
 	case !guardOnK && len(dominatingConds(cut.Block())) == 0 && len(consts) > 0:
 		l.Fail(rule, name, keyC, p.Pos(cut.Pos()), fmt.Sprintf("%s: the cut is unconditional and its index holds the constant(s) %v when no cue starts at or after d: the list is truncated there although nothing has to be removed", name, consts))
 	case !guardOnK:
@@ -151,6 +164,9 @@ func ruleForceDurationScan(p *Prog, l *Ledger, tier string) {
 		}
 		op := bo.Op
 		c, isC := constInt(bo.Y)
+		if k == nil {
+			continue
+		}
 		if !isC || bo.X != k {
 			if c2, ok2 := constInt(bo.X); ok2 && bo.Y == k {
 				c, op = c2, flipCompare(bo.Op)
@@ -295,4 +311,48 @@ func flipCompare(op token.Token) token.Token {
 // negateCompare: the comparison that holds exactly when op does not.
 func negateCompare(op token.Token) token.Token {
 	return map[token.Token]token.Token{token.LSS: token.GEQ, token.LEQ: token.GTR, token.GTR: token.LEQ, token.GEQ: token.LSS, token.EQL: token.NEQ, token.NEQ: token.EQL}[op]
+}
+
+// isFilterAccumulation: ph is the loop-carried value of  kept := X[:0]; for … { kept = append(kept, e) }  (possibly
+// merged with itself on the ways round the loop that keep nothing).
+func isFilterAccumulation(ph *ssa.Phi) bool {
+	seen := map[ssa.Value]bool{}
+	empty, grown := false, false
+	var find func(v ssa.Value) bool
+	find = func(v ssa.Value) bool {
+		if seen[v] {
+			return true
+		}
+		seen[v] = true
+		switch x := v.(type) {
+		case *ssa.Phi:
+			for _, e := range x.Edges {
+				if !find(e) {
+					return false
+				}
+			}
+			return true
+		case *ssa.Slice:
+			// the empty prefix X[:0]
+			if x.High != nil && x.Low == nil {
+				if h, ok := constInt(x.High); ok && h == 0 {
+					empty = true
+					return true
+				}
+			}
+			return false
+		case *ssa.Call:
+			bi, ok := x.Call.Value.(*ssa.Builtin)
+			if !ok || bi.Name() != "append" {
+				return false
+			}
+			if _, explicit := x.Call.Args[1].(*ssa.Slice); !explicit {
+				return false
+			}
+			grown = true
+			return find(x.Call.Args[0])
+		}
+		return false
+	}
+	return find(ph) && empty && grown
 }
